@@ -150,11 +150,11 @@ impl Topo {
         self.procs.iter().map(|(p, n, _)| (p.clone(), n.clone())).collect()
     }
 
-    pub fn script_of(&self, proc: &str, record: bool) -> Rc<Script> {
-        Rc::new(Script {
+    pub fn script_of(&self, proc: &str, record: bool) -> Rc<RefCell<Script>> {
+        Rc::new(RefCell::new(Script {
             rules: self.rules.iter().filter(|(p, _)| p == proc).map(|(_, r)| r.clone()).collect(),
             record,
-        })
+        }))
     }
 
     pub fn build(&self, seed: u64) -> System {
